@@ -193,6 +193,9 @@ def run(ctx):
         ifs = [n for n in body_walk(f) if isinstance(n, ast.If) and norm(n.test) == "self.run_on_shutdown"]
         ok = len(ifs) == 1 and "'shutdown'" in norm(ifs[0])
         ctx.check(ok, "R06.3", uid, "shutdown run issued from stop()", msg=f"{uid} no longer issues the shutdown run under `if self.run_on_shutdown`", key="shutdown run", node=f, rel=rel)
+    ctx.rule("R06.5", "after an instant was dispatched the next instant is computed from a clock reading taken after that dispatch (or from the instant itself), never from an earlier reading", floor=1)
+    next_now_freshness(ctx, program, "R06.5")
+
     ctx.rule("R06.4", "the DST-adjusted wait target is only subtracted from the `now` it was computed for; early wake-up re-checks compare the wall clock with the wall-clock instant", floor=3)
     adjusted_target_rule(ctx, program, "R06.4")
     return (
@@ -279,3 +282,42 @@ def adjusted_target_rule(ctx, program, rid):
                         bad = f"line {n.lineno}: `{nowname}` is re-assigned at line {redefs[0].lineno} between timer_trigger_next and `{short(par)}`"
         ctx.check(uses > 0 and bad is None, rid, uid, "legacy: target used only as `target - now` right behind the call",
                   msg=f"{uid}: {bad or 'wait target unused'}", key="legacy adj/now pairing", node=f, rel="trigger.py")
+
+
+def next_now_freshness(ctx, program, rid):
+    """TimeTriggerDecorator._cycle: two loop passes; events: clock readings, dispatches, calls of timer_trigger_next with their `now`."""
+    uid = "decorators/timing.py::TimeTriggerDecorator._cycle"
+
+    def clock(i, n, a, k, c, o):
+        idx = c.heap.get("$clock", Const(0)).v + 1
+        v = Sym(("clock", idx))
+        return [(c.hset("$clock", Const(idx)).emit(("call", "clock", (v,), (), n.lineno)), v)]
+
+    def ttn(i, n, a, k, c, o):
+        c = c.emit(("call", "next", (a[1],), (), n.lineno))
+        return [(c, ListV((App("instant", (a[1],)), App("adj", (a[1],))), "tuple"))]
+
+    pol = _AdjPolicy(program, may_raise_all=False, cancel=False, events=["self.dispatch"], summaries={"trigger.TrigTime.timer_trigger_next": ttn, "dt_now": clock}, record_atoms=False)
+    pol.loop_unroll = 2
+    heap = {"self.run_on_startup": Const(False), "self.dm": ObjV("dm", "DecoratorManager"), "dm.status": Sym(("clsattr", "DecoratorManagerStatus", "RUNNING")),
+            "dm.startup_time": Sym(("startup",)), "self.timespec": ListV((Const("period(now, 10min)"),), "list"), "dm.name": Const("f")}
+    out = run_flow(program, uid, pol, args={"self": ObjV("self", "TimeTriggerDecorator")}, heap=heap)
+    bad, n_after = None, 0
+    for kind, c, desc in exits(out):
+        evs = [e for e in c.trace if e[0] == "call"]
+        for i, e in enumerate(evs):
+            if e[1] != "next":
+                continue
+            disp = [j for j, x in enumerate(evs[:i]) if x[1] == "self.dispatch"]
+            if not disp:
+                continue
+            n_after += 1
+            now = e[2][0]
+            reads = [j for j, x in enumerate(evs[:i]) if x[1] == "clock" and x[2] == (now,)]
+            if isinstance(now, App) and now.op == "instant":
+                continue  # the dispatched instant itself (legacy style)
+            if not reads or max(reads) < max(disp):
+                bad = (f"after a dispatch the next instant is computed from {now!r}, " + ("a clock reading made before that dispatch" if reads else "not a clock reading") +
+                       ": a wake-up one microsecond early (tolerated by the re-check) yields the same instant again, the function runs twice with one trigger_time")
+    ctx.check(n_after > 0 and bad is None, rid, uid, "next instant computed from a reading newer than the last dispatch", msg=f"TimeTriggerDecorator._cycle: {bad or 'second pass not reached'}",
+              key="new next-now freshness", node=program.func(uid), rel="decorators/timing.py")
